@@ -85,6 +85,14 @@ def run_scenario(run: Run, scen: dict, rng: random.Random):
     rows = gen.gen_inputs(rng, spec, 3)
     X = common.input_array(rows, spec)
     scen_x = dict(scen, rows=rows)
+    # the fresh instance is used once before the checkpoint is loaded
+    try:
+        with torch.no_grad():
+            for b, c in zip(tB, chain):
+                b(torch.as_tensor(X)) if c.scope else b()
+    except Exception as e:  # noqa: BLE001
+        run.violation("eval-crash", scen_x, f"{type(e).__name__}: {e}")
+        return
     for i, (a, b, c) in enumerate(zip(tA, tB, chain)):
         sda = a.state_dict()
         who = "operand" if i == 0 else f"circuit derived by {'+'.join(o['op'] for o in ops[:i])}"
@@ -95,6 +103,11 @@ def run_scenario(run: Run, scen: dict, rng: random.Random):
         cen = census(a)
         learn_ptrs = {p.data_ptr() for p in a.parameters() if p.requires_grad}
         missing = learn_ptrs - set(cen)
+        # frozen tensors too: count tensor parameter nodes vs saved storages
+        from c02 import compiled_tensor_nodes
+        all_ptrs = {n._ptensor.data_ptr() for n in compiled_tensor_nodes(a) if n._ptensor is not None}
+        saved_ptrs = {v.data_ptr() for v in a.state_dict(keep_vars=True).values() if hasattr(v, "data_ptr")}
+        missing = missing | (all_ptrs - saved_ptrs)
         if missing:
             run.violation("missing-key", scen, f"{who}: {len(missing)} learnable tensor(s) do not appear in the state dictionary")
             return
@@ -137,6 +150,9 @@ def check(run: Run, tier: str, seed: int):
         spec = gen.gen_spec(srng, **opts)
         if len(spec["layers"]) > 30:
             spec = gen.gen_spec(srng, nv=2, **opts)
+        if cls != "complex":
+            from c10 import freeze_some
+            spec = freeze_some(spec, srng)  # frozen, randomly initialised tensors: their values live in the state dict only
         ops = pipelines.random_ops(srng, spec, cls) if i % 2 else []
         scen = {"spec": spec, "class": cls, "ops": ops, "semiring": srng.choice(semirings),
                 "fold": srng.random() < 0.5, "optimize": srng.random() < 0.5}
